@@ -7,6 +7,7 @@
 #include <pty.h>
 #include <termios.h>
 #include <sys/prctl.h>
+#include <pthread.h>
 #include "snoopy.h"
 
 int snoopy_filtering_check_chain(char const * const chain);
@@ -32,6 +33,16 @@ static int set_state(const char *r, const char *e, const char *tty, FILE *out) {
     return 0;
 }
 
+/* concurrent callers: every thread evaluates its own chain over and over; a decision must equal the one the same chain got
+ * when it was evaluated alone (filters are functions of argument and process state) */
+struct mt_job { const char *chain; int expect; long iters; long deviations; pthread_barrier_t *bar; };
+static void *mt_worker(void *p) {
+    struct mt_job *j = p;
+    pthread_barrier_wait(j->bar);
+    for (long k = 0; k < j->iters; k++) if (snoopy_filtering_check_chain(j->chain) != j->expect) j->deviations++;
+    return NULL;
+}
+
 static void put_verdict(FILE *out, int v) {
     if (v == SNOOPY_FILTER_PASS) fprintf(out, "ok\tP");
     else if (v == SNOOPY_FILTER_DROP) fprintf(out, "ok\tD");
@@ -52,11 +63,25 @@ static void handle(int nf, char **f, FILE *out) {
         char *c = malloc(chain.n + 1); memcpy(c, chain.p, chain.n + 1);
         put_verdict(out, snoopy_filtering_check_chain(c));
         free(c);
-    } else if (!strcmp(f[0], "uidf") && nf == 5) {
+    } else if (!strcmp(f[0], "mt") && nf == 6) {
+        /* mt ruid euid tty iterations chain,chain,... */
+        if (set_state(f[1], f[2], f[3], out)) return;
+        long iters = strtol(f[4], 0, 10);
+        vlist chains = parse_list(f[5]);
+        size_t n = chains.n; if (n < 1 || n > 16) { fprintf(out, "driver-error:mt"); return; }
+        struct mt_job job[16]; pthread_t th[16]; pthread_barrier_t bar;
+        pthread_barrier_init(&bar, NULL, (unsigned) n);
+        for (size_t i = 0; i < n; i++) { job[i].chain = chains.v[i]; job[i].expect = snoopy_filtering_check_chain(chains.v[i]); job[i].iters = iters; job[i].deviations = 0; job[i].bar = &bar; }
+        for (size_t i = 0; i < n; i++) pthread_create(&th[i], NULL, mt_worker, &job[i]);
+        for (size_t i = 0; i < n; i++) pthread_join(th[i], NULL);
+        fprintf(out, "ok\t");
+        for (size_t i = 0; i < n; i++) fprintf(out, "%s%c%ld", i ? "," : "", job[i].expect == SNOOPY_FILTER_PASS ? 'P' : 'D', job[i].deviations);
+    } else if (!strcmp(f[0], "uidf") && (nf == 5 || nf == 6)) {
         if (set_state(f[2], f[3], "0", out)) return;
         vbytes a = parse_bytes(f[4]);
         char *c = malloc(a.n + 1); memcpy(c, a.p, a.n + 1);
         int v;
+        errno = nf == 6 ? atoi(f[5]) : 0;     /* what the host program left in errno: the decision must not depend on it */
         if (!strcmp(f[1], "only")) v = snoopy_filter_only_uid(c);
         else if (!strcmp(f[1], "exclude")) v = snoopy_filter_exclude_uid(c);
         else v = snoopy_filter_only_root(c);
